@@ -37,6 +37,8 @@ def run(model, rep, tier):
 def r1(model, rep):
     rel = model.rel("components")
     owner, fn = model.method("PMux", "_get_pri_inp")
+    from ..core import inline_pure_aliases
+    fn = inline_pure_aliases(fn)
     where = "%s:%d" % (rel, fn.lineno)
     construct = "components.%s._get_pri_inp" % owner
     ok = owner == "PMux"
